@@ -127,7 +127,13 @@ def framework_content(fw):
     return c
 
 
-def diff_content(a, b, path=""):
+def diff_content(a, b, path="", rtol=1e-13):
+    """First difference between two canonical contents.  Floats are compared to `rtol` (1e-13: the 15 significant digits a
+    spreadsheet is guaranteed to keep, without the brittleness of comparing rounded decimal strings); rtol=0 is exact."""
+    if isinstance(a, float) and isinstance(b, float) and not isinstance(a, bool):
+        if a == b or abs(a - b) <= rtol * max(abs(a), abs(b)):
+            return None
+        return "%s: %r != %r" % (path, a, b)
     if type(a) != type(b) and not (isinstance(a, (int, float)) and isinstance(b, (int, float))):
         return "%s: %r != %r" % (path, a, b)
     if isinstance(a, dict):
@@ -136,7 +142,7 @@ def diff_content(a, b, path=""):
                 return "%s/%s: missing in original" % (path, k)
             if k not in b:
                 return "%s/%s: missing after round trip" % (path, k)
-            d = diff_content(a[k], b[k], "%s/%s" % (path, k))
+            d = diff_content(a[k], b[k], "%s/%s" % (path, k), rtol)
             if d:
                 return d
         return None
@@ -144,7 +150,7 @@ def diff_content(a, b, path=""):
         if len(a) != len(b):
             return "%s: length %d != %d (%r vs %r)" % (path, len(a), len(b), a, b)
         for i, (x, y) in enumerate(zip(a, b)):
-            d = diff_content(x, y, "%s[%d]" % (path, i))
+            d = diff_content(x, y, "%s[%d]" % (path, i), rtol)
             if d:
                 return d
         return None
@@ -170,7 +176,26 @@ def compare_runs(R, label, rA, rB, rtol=1e-9):
         R.count("illposed_runs")
         return None
     A, B = digest.result_arrays(rA), digest.result_arrays(rB)
-    diffs = digest.compare_arrays(A, B, rtol=rtol)
+    if rtol == 0:
+        diffs = digest.compare_arrays(A, B, rtol=0.0)
+    else:
+        # agreement to rtol relative to the magnitudes in the model: a 1e-16 perturbation of an input (the 16th digit a
+        # spreadsheet drops) may be amplified in a stiff model, so the floor is rtol x the largest stock / flow
+        scale = max([1.0] + [float(np.nanmax(np.abs(np.where(np.isfinite(v), v, 0.0)))) for k, v in A.items() if k[0] in ("comp", "link") and v.size])
+        diffs = []
+        for k in sorted(set(A) | set(B), key=str):
+            if k not in A or k not in B:
+                diffs.append((k, None, "present" if k in A else "missing", "present" if k in B else "missing"))
+                continue
+            x, y = A[k], B[k]
+            if x.shape != y.shape:
+                diffs.append((k, None, x.shape, y.shape))
+                continue
+            with np.errstate(all="ignore"):
+                ok = (np.abs(x - y) <= rtol * np.maximum(scale if k[0] in ("comp", "link", "bins", "charac") else 1.0, np.maximum(np.abs(x), np.abs(y)))) | (x == y) | (np.isnan(x) & np.isnan(y))
+            if not np.all(ok):
+                idx = np.argwhere(~ok)[0]
+                diffs.append((k, [int(i) for i in idx], float(x[tuple(idx)]), float(y[tuple(idx)])))
     if diffs:
         return [list(map(str, d)) for d in diffs[:4]]
     return []
@@ -278,7 +303,7 @@ def round_trip(R, kind, P, pset, instr, rng):
         elif diffs is not None:
             R.ok("databook-behaviour")
         data3 = at.ProjectData.from_spreadsheet(data2.to_spreadsheet(), P.framework)
-        d = diff_content(data_content(data2, 17), data_content(data3, 17))
+        d = diff_content(data_content(data2, 17), data_content(data3, 17), rtol=0)
         if d:
             R.bad("databook-second-round-trip", "C16:databook-second-round-trip-differs", {"difference": d})
         else:
@@ -302,7 +327,7 @@ def round_trip(R, kind, P, pset, instr, rng):
         elif diffs is not None:
             R.ok("progbook-behaviour")
         pset3 = at.ProgramSet.from_spreadsheet(pset2.to_spreadsheet(), framework=P.framework, data=P.data)
-        d = diff_content(progset_content(pset2, 17), progset_content(pset3, 17))
+        d = diff_content(progset_content(pset2, 17), progset_content(pset3, 17), rtol=0)
         if d:
             R.bad("progbook-second-round-trip", "C16:progbook-second-round-trip-differs", {"difference": d})
         else:
@@ -356,10 +381,10 @@ def round_trip(R, kind, P, pset, instr, rng):
             P2 = at.Project.load(fn)
             sc.saveobj(os.path.join(td, "res.obj"), res)
             res2 = sc.loadobj(os.path.join(td, "res.obj"))
-        d = diff_content(data_content(P2src.data, 17), data_content(P2.data, 17))
+        d = diff_content(data_content(P2src.data, 17), data_content(P2.data, 17), rtol=0)
         if d:
             R.bad("binary-content", "C16:project-save-load-content[data]", {"difference": d})
-        elif pset is not None and diff_content(progset_content(pset, 17), progset_content(P2.progsets[0], 17)):
+        elif pset is not None and diff_content(progset_content(pset, 17), progset_content(P2.progsets[0], 17), rtol=0):
             R.bad("binary-content", "C16:project-save-load-content[progset]", {"difference": diff_content(progset_content(pset, 17), progset_content(P2.progsets[0], 17))})
         else:
             R.ok("binary-content")
@@ -490,6 +515,12 @@ def progset_ops(R, case, P, pset, instr, rng):
     except Exception as e:
         R.bad("edited-object-reloads", "C16:edited-progset-spreadsheet-cannot-be-read[%s,%s]" % ("+".join(sorted(set(applied))), type(e).__name__), {"ops": applied, "error": str(e)[:300]})
         return False
+    # the data the edited object holds is the data its spreadsheet shows (15 significant digits)
+    dc = diff_content(progset_content(ps, 15), progset_content(rebuilt, 15))
+    if dc:
+        R.bad("edited-object-content-exported", "C16:edited-progset-content-lost-on-export[%s]" % "+".join(sorted(set(applied))), {"ops": applied, "difference": dc[:300]})
+    else:
+        R.ok("edited-object-content-exported")
     start = max(float(P.settings.sim_start), instr.start_year) if instr is not None else float(P.settings.sim_start)
     instr2 = at.ProgramInstructions(start_year=float(P.settings.sim_start)) if "reconcile" in applied else sc.dcp(instr)
     for d_ in (instr2.alloc, instr2.capacity, instr2.coverage):  # overwrites that name a removed program are not part of the claim
